@@ -49,7 +49,8 @@ VARIABLES phase,      \* "pick" (kind and mode chosen) -> "done" (a complete con
                       \*    changed session defaults: resolution is stateless, the statement keeps no memory)
           kind, mode,
           set,        \* set[o] = set of layers of option o that are configured (never contains "default")
-          callNone,   \* the per-call timeout is given and is None (= wait forever); only meaningful with "call" set
+          callNone,   \* the timeout given at the highest configured layer (the call's, else the profile's / session's) is
+                      \* an explicit None (= never time out on the client): a value like any other, not "not set"
           winner      \* winner[o] = the layer whose value must be in effect
 vars == <<phase, kind, mode, set, callNone, winner>>
 
@@ -89,7 +90,7 @@ Configure ==
               g == [o \in AllOpts |-> IF Applicable(o, kind, mode) THEN f[o] ELSE {}] IN
           set' = g
     /\ callNone' \in BOOLEAN
-    /\ (callNone' => "call" \in set'["timeout"])
+    /\ (callNone' => set'["timeout"] # {})
     /\ winner' = [o \in AllOpts |-> First(o, kind, set'[o])]
 
 \* Executing the same statement object again under a different profile (profile modes) or after the
